@@ -138,9 +138,15 @@ type scenario struct {
 	TooLongCommon int        `json:"too_long_common"` // >0: differenceTooLong when more pts entries are due
 	TooLongChan   int        `json:"too_long_chan"`
 	ErrPct        int        `json:"err_pct"` // push phase: percentage of difference requests answered with an RPC error
-	IsBot         bool       `json:"is_bot"`
-	Natural       bool       `json:"natural"` // wait for the library's own gap timers before explicit recovery
-	TwoPushers    bool       `json:"two_pushers"`
+	// Chain faults (a chain = the requests of one recovery of one sequence: the first
+	// one plus a continuation after every non-final answer), active in every phase:
+	ErrK         int  `json:"err_k"`          // >0: the ErrK-th request of a chain fails (twice per sequence, then never again)
+	ChainTooLong bool `json:"chain_too_long"` // a continuation request is answered too-long (once per sequence)
+	SliceExact   bool `json:"slice_exact"`    // a sliced common chain reports final=false up to the head, its last piece is differenceEmpty
+	ChSliceExact bool `json:"ch_slice_exact"` // same for channelDifference: last piece is channelDifferenceEmpty
+	IsBot        bool `json:"is_bot"`
+	Natural      bool `json:"natural"` // wait for the library's own gap timers before explicit recovery
+	TwoPushers   bool `json:"two_pushers"`
 
 	entries []*entry
 	byUID   map[int]*entry
@@ -206,6 +212,12 @@ func genScenario(idx int, r *rand.Rand, o genOpts) *scenario {
 	if r.IntN(7) == 0 {
 		sc.ErrPct = 25
 	}
+	if r.IntN(4) == 0 {
+		sc.ErrK = 1 + r.IntN(2)
+	}
+	sc.ChainTooLong = r.IntN(8) == 0
+	sc.SliceExact = sc.SliceL > 0 && r.IntN(2) == 0
+	sc.ChSliceExact = sc.ChSliceL > 0 && r.IntN(2) == 0
 	unknownPct := 0
 	if r.IntN(8) == 0 {
 		unknownPct = 15
@@ -216,6 +228,7 @@ func genScenario(idx int, r *rand.Rand, o genOpts) *scenario {
 	sc.Class = fmt.Sprintf("loss%d/dup%d/win%d/nonmsg%d/seq%d/L%d/chL%d/chmode%d/tl%v.%v/err%d/unk%d/ch%d",
 		lossPct, dupPct, window, nonMsgPct, seqPct, sc.SliceL, sc.ChSliceL, sc.ChanMode,
 		sc.TooLongCommon > 0, sc.TooLongChan > 0, sc.ErrPct, unknownPct, nch-nlate)
+	sc.Class += fmt.Sprintf("/errk%d/ctl%v/ex%v.%v", sc.ErrK, sc.ChainTooLong, sc.SliceExact, sc.ChSliceExact)
 	if nlate > 0 {
 		sc.Class += "/late1"
 	}
